@@ -289,11 +289,20 @@ func (x *gen) longLines() sessCase {
 		base = []int{3000, 70000}[x.intn(2)] // beyond bufio.MaxScanTokenSize when unlimited
 	}
 	factor := []float64{1, 1.2, 2, 10}[x.intn(4)]
+	size := int(float64(base) * factor)
+	if x.intn(3) == 0 {
+		// absolute sizes around the other limits of the load path, whatever the save limit: bufio.MaxScanTokenSize
+		// (64 KiB, the scanner's default), twice that, and twice the save limit
+		size = []int{65536 - 200, 65536 - 8, 65536 + 8, 65536 + 200, 2*65536 + 100, 2*limit - 8, 2*limit + 64, 70000}[x.intn(8)]
+		if size < 40 {
+			size = 70000
+		}
+	}
 	fname := x.pickName(midNames)
 	before, after := x.pickName(beforeNames), x.pickName(afterNames)
 	st := []string{
 		before + " = " + fmt.Sprint(1+x.intn(1000)),
-		fnOfLen(fname, int(float64(base)*factor)),
+		fnOfLen(fname, size),
 		after + " = [" + fmt.Sprint(x.intn(100)) + ", \"t\"]",
 	}
 	if limit > 0 {
@@ -304,6 +313,11 @@ func (x *gen) longLines() sessCase {
 	}
 	if x.intn(2) == 0 {
 		st = append(st, fnOfLen(x.pickName(afterNames)+"f", int(float64(base)*[]float64{0.5, 1.2, 3}[x.intn(3)])))
+	}
+	if limit == 0 && x.intn(2) == 0 {
+		// unlimited saving: data values and a lambda around the scanner's default buffer
+		n := []int{65536 - 8, 65536 + 8, 70000}[x.intn(3)]
+		st = append(st, "dbig = "+strOfInspectLen(n), "lbig = a => {"+strings.Repeat("a=a+1;", n/6)+"a}")
 	}
 	second := []string{after + "2 = 7"}
 	return sessCase{kind: "long-line", maxLen: limit, sessions: [][]string{st, second}, calls: []string{fname + "(1)"}}
@@ -613,6 +627,10 @@ var sessionCorpus = []sessCase{
 	// a named function much longer than the default limit, bindings before and after it (seeded regression: scanner buffer)
 	{"long-line", 4000, [][]string{{"alpha = 1", fnOfLen("poly", 10000), "zeta = [1,2]"}}, []string{"poly(2)"}},
 	{"long-line", 4000, [][]string{{"alpha = 1", fnOfLen("poly", 5100), "zeta = [1,2]", "dlo = " + strOfInspectLen(3999), "deq = " + strOfInspectLen(4000), "dhi = " + strOfInspectLen(4001)}}, []string{"poly(2)"}},
+	// a named function longer than the scanner's default 64 KiB buffer under the DEFAULT save limit (seeded regression 2:
+	// buffer bounded by max(64KiB, 2*limit)), and one just above twice the limit
+	{"long-line", 4000, [][]string{{"alpha = 1", fnOfLen("big", 70000), "small = [1, 2.5, \"x\"]", "z = 42"}}, []string{"big(1)"}},
+	{"long-line", 40000, [][]string{{"alpha = 1", fnOfLen("big", 2*40000+2000), "z = 42"}}, []string{"big(1)"}},
 	{"long-line", 0, [][]string{{"alpha = 1", fnOfLen("poly", 70000), "zeta = [1,2]", "big = " + strOfInspectLen(70000)}}, []string{"poly(2)"}},
 	{"long-line", 200, [][]string{{"alpha = 1", fnOfLen("poly", 2000), "zeta = [1,2]", "lam = a => a" + strings.Repeat("+1", 150)}}, []string{"poly(2)"}},
 	// string literals inside function bodies: a double quote together with a newline, tab, NUL, high byte; a raw string
